@@ -2,3 +2,5 @@
 (lint (files (f 0 ok (1)) (f 3 ok (0 1))) (nh 3) (w 2) (orders (0 3) (0 3) (0 3)) (delays 0 0))
 ; unparsable file in the middle, reverse-staggered delays
 (lint (files (f 1 ok (0 1)) (f 4 bad ()) (f 5 ok (1 1 0))) (nh 3) (w 3) (orders (4 5 1) (4 5 1) (4 5 1)) (delays 24 16 8))
+; session: one linter/reporter, a serial call then a two-worker call, then output (seed init-parallel-drops-earlier-reports)
+(session (nh 3) (call (files (f 7 ok (1)) (f 9 bad ())) (w 1) (orders (7 9) (7 9) (7 9)) (delays 0 0)) (call (files (f 0 ok (0 1)) (f 1 ok (1)) (f 2 ok (0))) (w 2) (orders (0 1 2) (0 1 2) (0 2 1)) (delays 20 0 0)))
